@@ -251,7 +251,7 @@ func (p *Pool) runOne(w *worker, i int, jb []byte) Result {
 	case r := <-ch:
 		if r.err != nil && len(r.line) == 0 {
 			w.cmd.Wait()
-			return Result{ID: i, Err: "worker died", Dump: tail(w.stderr.String(), 20000)}
+			return Result{ID: i, Err: "worker died", Dump: headTail(w.stderr.String(), 6000, 14000)}
 		}
 		var res Result
 		if err := json.Unmarshal(r.line, &res); err != nil {
@@ -268,6 +268,14 @@ func (p *Pool) runOne(w *worker, i int, jb []byte) Result {
 		w.cmd.Wait()
 		return Result{ID: i, Timeout: true, Dump: tail(w.stderr.String(), 60000)}
 	}
+}
+
+// headTail keeps the beginning (where the runtime prints why the process died) and the end.
+func headTail(s string, h, t int) string {
+	if len(s) <= h+t {
+		return s
+	}
+	return s[:h] + "\n...\n" + s[len(s)-t:]
 }
 
 func tail(s string, n int) string {
